@@ -175,10 +175,10 @@ func (g *generatorv2) funcMap(
 		"quote": strconv.Quote,
 		"import": func(importPath string) string {
 			if names := file.Imports[importPath]; len(names) > 0 {
-				return names[0]
+				return g.requireFree(names[0], importPath)
 			}
 			res := printImportAlias(importPath, filepath.Base(importPath), addImports, aliases)
-			return res
+			return g.requireFree(res, importPath)
 		},
 		"expr":     p.printExpr,
 		"typeHash": g.printTypeHash,
@@ -217,17 +217,17 @@ func (g *generatorv2) typePrinter(f *file, addImports map[string]string, aliases
 
 				// Using a named import.
 				if imp.Name != nil {
-					return imp.Name.Name
+					return g.requireFree(imp.Name.Name, ip)
 				}
 
 				// Unnamed imports use the package's name.
-				return pkg.Name()
+				return g.requireFree(pkg.Name(), ip)
 			}
 
 			// The generated code needs a package (pkg) to be imported to form the qualifier, but it wasn't imported
 			// by the user already and it isn't in this package (f.Package)
 			if !isPackagePathEquivalent(pkg, f.Package.Types.Path()) {
-				return printImportAlias(pkg.Path(), pkg.Name(), addImports, aliases)
+				return g.requireFree(printImportAlias(pkg.Path(), pkg.Name(), addImports, aliases), pkg.Path())
 			}
 
 			// The type is defined in the same package
@@ -236,8 +236,21 @@ func (g *generatorv2) typePrinter(f *file, addImports map[string]string, aliases
 	}
 }
 
-// unnameableTypes reports the errors noted by the type printer, in a stable
-// order.
+// requireFree notes an error if name, by which the generated code refers to
+// the package with the given import path, is also the name of a variable that
+// the generated code declares. It returns name.
+func (g *generatorv2) requireFree(name, importPath string) string {
+	if _generatedNames.MatchString(name) || _generatedInnerNames.MatchString(name) || _generatedModifierNames.MatchString(name) {
+		if g.unnameable == nil {
+			g.unnameable = make(map[string]error)
+		}
+		g.unnameable["package "+name] = generatedNameError(g.fset.Position(g.usePos), name, importPath)
+	}
+	return name
+}
+
+// unnameableTypes reports the errors noted by the type printer and by
+// requireFree, in a stable order.
 func (g *generatorv2) unnameableTypes() error {
 	names := make([]string, 0, len(g.unnameable))
 	for name := range g.unnameable {
